@@ -13,7 +13,7 @@
 (*   private board copy that is moved lazily (set_board_pos).              *)
 (* MC_Chain checks on bounded models that the second refines the first.    *)
 (***************************************************************************)
-EXTENDS BoardImpl, Notation, TLC
+EXTENDS BoardImpl, Types, TLC
 
 NoOutcome == <<"none">>
 NullMove == <<0, 0, 0, 0>>
